@@ -203,6 +203,11 @@ def _make_sync_eio(h):
                     'Connect handler failed: ' + str(exc))
             self.write_loop_task = DummyTask()
             self.read_loop_task = DummyTask()
+            if getattr(h, 'eager_after_connect', False):
+                # the real client has started its read-loop thread by now: it
+                # may process the server's first answers before connect()
+                # returns to its caller
+                h.pump()
 
         _connect_polling = _connect_any
         _connect_websocket = _connect_any
